@@ -34,6 +34,7 @@ REQUIRED_THEOREMS = [
     "issues_without_parameters_subset", "issues_with_parameters_extra",
     "issues_antitone_in_parameters", "parameters_do_not_change_totality",
     "issues_depend_on_parameter_membership", "remove_one_parameter",
+    "generated_parameters_all_referenced", "generated_parameters_tight",
 ]
 TRUSTED = [
     "hand-written model lean/GlotaranModel/C20.lean of glotaran/model/item.py (iterate_names_and_labels, "
@@ -1362,6 +1363,20 @@ def run_case(ck, schema, scen_name, sc, muts, evaluate=False):
         if gi[0] == "ok" and any(g.startswith("[param,") for g in gi[1]):
             ck.violation("generated-parameters-missing", "validating against generate_parameters() still reports "
                          f"{[g for g in gi[1] if g.startswith('[param,')]}", case)
+        # tightness (Lean: generated_parameters_all_referenced, generated_parameters_tight): every generated label is
+        # one of get_parameter_labels(), and leaving any one out is reported as a ParameterIssue for that label
+        from glotaran.parameter import Parameters
+        gen_labels = sorted(gen.labels)
+        if gen_labels != labels:
+            ck.violation("generated-parameters-not-the-referenced-ones",
+                         f"generate_parameters() has {gen_labels}, get_parameter_labels() {labels}", case)
+        for drop in gen_labels:
+            ck.oracle_evals += 1
+            less = Parameters({p.label: p for p in gen.all() if p.label != drop})
+            gl = real_issues(model, less)
+            if gl[0] == "ok" and f"[param,{enc(drop)}]" not in gl[1]:
+                ck.violation("generated-parameters-not-tight", f"generate_parameters() without {drop!r} validates without "
+                             f"a ParameterIssue for it: {gl[1]}", case)
     except Exception as e:  # noqa: BLE001
         impl.append("err " + ERR_CLASS.get(type(e).__name__, type(e).__name__))
         ck.violation("internal-error-parameter-labels-" + type(e).__name__, f"get_parameter_labels/generate_parameters raised {e!r}", case)
